@@ -59,6 +59,9 @@ def menu():
     m.append(('create', None, None, None))
     for x in APPS:
         m.append(('outside', x, 'copy', None))
+    for x, y in (('A', 'B'), ('B', 'D'), ('D', 'A')):
+        m.append(('serve', x, 'callenv', y))
+        m.append(('dispatch', x, None, y))
     # the default application's handler ends with redirect() (which works on the module-level request / response),
     # optionally after a nested call to another application
     m.append(('serve', 'D', 'redir', None))
@@ -98,6 +101,7 @@ def menu_errors():
     m.append(('debug-app-errors', None, None, None))
     # one more application is created FROM application A's configuration object and then re-configured in place
     m.append(('create-from-A', None, None, None))
+    m.append(('app-turnover', None, None, None))
     return m
 
 
@@ -122,6 +126,7 @@ class World:
         self.hooklog = []      # names logged by the before_request hook each application registered for itself
         self.counter = 0
         self.pending = {}      # app name -> nested op for its next request
+        self.extra = []        # observations of sub-requests made with a derived environ
         for name, app in self.apps.items():
             self._routes(name, app)
 
@@ -190,6 +195,15 @@ class World:
         app.on_route('/h', route_hook)
         app.add_hook('before_request', lambda: w.hooklog.append(name))
 
+        def whoapp(**kw):
+            # what a plugin or helper does: it finds the serving application (its configuration, its response) through the request
+            serving = app.request.app
+            sname = [k for k, v in w.apps.items() if v is serving] or ['another application']
+            serving.response.headers['X-Served-By'] = sname[0]
+            return f'{name} serves; request.app is {sname[0]}; limit {serving.config.max_body_size}'
+        app.route('/whoapp', 'GET', whoapp)
+        app.route('/whoapp/%s' % name.lower(), 'GET', whoapp)
+
         def form(rid):
             return repr((sorted(app.request.forms.items()), sorted(app.request.params.items())))
         app.route('/f/<rid>', 'POST', form)
@@ -220,6 +234,13 @@ class World:
             om.Ombott()
         elif kind == 'mutq':
             pass
+        elif kind == 'callenv':
+            # a sub-request to another application made with a COPY of this request's environ (only the path is replaced)
+            env = dict(app.request.copy().environ)
+            env['PATH_INFO'] = '/whoapp'
+            self.served.append(y)
+            c = wsgi.call(self.apps[y], env)
+            self.extra.append(('callenv', name, y, c.status, c.body, dict(c.headers or []).get('X-Served-By')))
 
     def request(self, name, op, kind='plain'):
         self.counter += 1
@@ -267,6 +288,32 @@ class World:
         kind, x, n, y = op
         if kind == 'create':
             self.om.Ombott()
+            return None
+        if kind == 'app-turnover':
+            # applications come and go (tests, per-tenant applications, re-configuration with setup()): a new application has the limits
+            # of ITS configuration, whatever lived at that memory address before
+            bad = None
+            for i in range(40):
+                tmp = self.om.Ombott({'max_body_size': 1000 + i, 'allow_x_script_name': True})
+                tmp.request.copy()
+                del tmp
+                self.apps['A'].setup({'max_body_size': 8, 'max_memfile_size': 4, 'domain_map': self.apps['A'].config.domain_map})
+                c = self.om.Ombott({'max_body_size': 3})
+                c.route('/b', 'POST', lambda c=c: c.request.body.read() + b'|' + c.request.script_name.encode())
+                r1 = wsgi.call(c, wsgi.environ('POST', '/b', body=b'12345', headers={'X-Script-Name': '/foreign'}))
+                r2 = wsgi.call(c, wsgi.environ('POST', '/b', body=b'12', headers={'X-Script-Name': '/foreign'}))
+                if r1.code != 413 or r2.code != 200 or r2.body != b'12|/':
+                    bad = bad or (r1.status, r2.status, r2.body)
+                del c
+            self.extra.append(('turnover', None, None, bad))
+            return None
+        if kind == 'dispatch':
+            # a "try X, on 404 hand the same environ to Y" dispatcher: one environ dict, two applications, one after the other
+            env = wsgi.environ('GET', '/whoapp/' + y.lower(), qs='who=' + y)
+            self.served += [x, y]
+            c1 = wsgi.call(self.apps[x], env)
+            c2 = wsgi.call(self.apps[y], env)
+            self.extra.append(('dispatch', x, y, c2.status, c2.body, dict(c2.headers or []).get('X-Served-By'), c1.status))
             return None
         if kind == 'debug-app-errors':
             dbg = self.om.Ombott({'debug': True, 'max_body_size': 8})
@@ -330,6 +377,20 @@ def judge_world(w, results, threaded=False):
         if o != exp:
             return 'foreign-request-data', (f'application {name}, request {rid}, at {tag}: app.request/app.response show '
                                             f'{o!r}; its own request is {exp!r}')
+    for e in w.extra:
+        if e[0] == 'turnover':
+            if e[3] is not None:
+                return 'foreign-config', (f'40 rounds of: an application with max_body_size 1000+ is created and dropped, A is re-configured with setup(), a new application '
+                                          f'with max_body_size=3 serves a 5-byte and a 2-byte body: in some round it answered {e[3][0]} / {e[3][1]} {e[3][2]!r}; '
+                                          f"its own configuration says 413 / 200 b'12|/'")
+            continue
+        kind, x, y, status, body, by = e[:6]
+        limit = 8
+        want = f'{y} serves; request.app is {y}; limit {limit}'.encode()
+        if status != '200 OK' or body != want or by != y:
+            how = (f'application {x} makes a sub-request to {y} with a copy of its own environ' if kind == 'callenv' else
+                   f'a dispatcher hands one environ first to {x} (answer {e[6]}) and then to {y}')
+            return 'foreign-app', f'{how}: {y} answered {status} {body!r}, header X-Served-By {by!r} on its response; expected {want!r} and {y!r}'
     for r in results:
         if r is None:
             continue
@@ -375,7 +436,7 @@ def run_history(hist):
                         v = ('foreign-tenant', f'application {name} asked for host t.example answered {resp[0]} {resp[2][:60]!r}; it maps that host to its own tenant')
                         break
                     continue
-                if k == 'hookcall':
+                if k in ('hookcall', 'callenv'):
                     k = 'none'
                 if k in ('pbody', 'pbodys'):
                     mine = (b'body' if k == 'pbody' else b'm') + name.encode() + rid.encode()
